@@ -295,6 +295,14 @@ func TestReplay(t *testing.T) {
 	if err != nil {
 		t.Fatalf("cannot load %s: %v", p, err)
 	}
+	if env.Property == "C07" {
+		replayC07(t, env, p)
+		return
+	}
+	if env.Property == "C02" {
+		replayC02(t, p)
+		return
+	}
 	replaySeq(t, env, p)
 }
 
